@@ -1,6 +1,8 @@
 package main
 
 import (
+	"go/constant"
+	"regexp"
 	"fmt"
 	"go/types"
 	"math/big"
@@ -18,7 +20,7 @@ var pureFuncs = []string{
 	"bytes.Equal", "bytes.Compare", "bytes.HasPrefix", "bytes.HasSuffix", "bytes.Index", "bytes.IndexByte", "bytes.Contains",
 	"strconv.", "(time.Time).", "time.Unix", "time.Date", "errors.Is", "errors.As", "(*errors.errorString).Error",
 	"slices.Contains", "slices.Index", "slices.Equal", "(*strings.Builder).String", "(*strings.Builder).Len",
-	"golang.org/x/text/language.",
+	"golang.org/x/text/language.", "seehuhn.de/go/postscript/type1/names.FromUnicode",
 }
 
 func libName(x *ssa.Call) string {
@@ -205,6 +207,16 @@ func (f *FuncVC) libCall(st *State, x *ssa.Call, args []*Val) (*Val, bool) {
 		f.fact(st, or(eq(r.Fs[0].T, args[0].Fs[0].T), cmp(">=", r.Fs[0].T, st.wm)))
 		f.bumpWM(st)
 		return r, true
+	}
+	if name == "fmt.Sprintf" && len(x.Call.Args) >= 1 {
+		if c, ok := x.Call.Args[0].(*ssa.Const); ok && c.Value != nil {
+			fm := constant.StringVal(c.Value)
+			lit := len(regexp.MustCompile(`%[^a-zA-Z%]*[a-zA-Z%]`).ReplaceAllString(fm, ""))
+			f.usedAssumed["fmt.Sprintf: pure; the result is at least as long as the literal part of a constant format string"] = true
+			r := f.freshTyped(st, resTy, "sprintf")
+			f.fact(st, cmp(">=", "(gstr.len "+r.T+")", num(int64(lit))))
+			return r, true
+		}
 	}
 	if isPureLib(name) {
 		f.usedAssumed[name+": pure (fresh result, no heap effect)"] = true
